@@ -80,8 +80,17 @@ func injectC12(r *rand.Rand, g *spec.Grammar) string {
 			insert(anyRule(), spec.Sym{I: a})
 		}
 		return "mutually recursive unproductive pair"
-	case 5: // unproductive start symbol
-		n := addNT("Top")
+	case 5: // unproductive start symbol (every second time under yaccgo's default name "start")
+		name := "Top"
+		if r.Intn(2) == 0 {
+			name = "start"
+			for _, x := range g.NTs {
+				if x.Name == "start" {
+					name = "Top"
+				}
+			}
+		}
+		n := addNT(name)
 		g.Rules = append(g.Rules, spec.Rule{Lhs: n, Rhs: []spec.Sym{{I: n}, {I: g.Start}}, Prec: -1})
 		g.Start = n
 		return "unproductive start symbol"
